@@ -243,6 +243,8 @@ RULE = ("Every chain case: Sequence and Compose on every value twice, then on on
 CASE_TIMEOUT = 10
 
 RESERVED = ["name", "type", "compose", "variable", "dim", "combine", "getter"]
+# reserved words that are nevertheless legitimate names of a user's attributes of a plain Variable / a Compose
+STRUCTURE_ATTRS = ("dim", "combine", "variable")
 
 # ---------------------------------------------------------------------------------------------
 # encoding of Python values
@@ -355,14 +357,31 @@ def canon_kw(kw):
     return {k: canon_p(v) for k, v in kw.items()}
 
 
+# data scalars that are not ints ("getters are arbitrary functions": a getter may return None for a missing particle,
+# a flag, a float, an empty string, an exception object as a value ...): the code never looks at data, the model holds
+# them as int codes beyond +-10^6 (Raw.int), like the opaque scalars of contexts
+DATA_OPAQUE = dict(OPAQUE, **{"''": -1000004, "exc": 1000006})
+_EXC = ValueError("missing")          # an exception object used as a VALUE (one object: exceptions compare by identity)
+_DATA_OPAQUE_PY = dict(_OPAQUE_PY, **{"''": "", "exc": _EXC})
+_DATA_OPAQUE_REV = {v: k for k, v in DATA_OPAQUE.items()}
+
+
 def enc_data(o):
-    """data: ints, tuples, and dictionaries inside tuples (data that looks like a (data, context) pair)"""
+    """data: ints, scalars that are not ints (None, booleans, floats, '', an exception object), tuples (also the empty
+    one), and dictionaries inside tuples (data that looks like a (data, context) pair)"""
     if isinstance(o, tuple):
         return [enc_data(x) for x in o]
     if isinstance(o, int) and not isinstance(o, bool):
         return o
     if isinstance(o, dict):
         return {"ctx": enc(o)}
+    if o is None or isinstance(o, (bool, float)):
+        r = repr(o)
+        return {"o": r} if r in OPAQUE else {"obj": type(o).__name__ + ":" + r}
+    if isinstance(o, str) and o == "":
+        return {"o": "''"}
+    if type(o) is ValueError and o.args == _EXC.args:
+        return {"o": "exc"}
     return {"obj": type(o).__name__}
 
 
@@ -370,6 +389,8 @@ def dec_data(p):
     if isinstance(p, list):
         return tuple(dec_data(x) for x in p)
     if isinstance(p, dict):
+        if "o" in p:
+            return _DATA_OPAQUE_PY[p["o"]]
         return dec(p["ctx"])
     return p
 
@@ -378,6 +399,8 @@ def data_to_model(p, names):
     if isinstance(p, list):
         return [data_to_model(x, names) for x in p]
     if isinstance(p, dict):
+        if "o" in p:
+            return DATA_OPAQUE[p["o"]]
         return {"ctx": to_model(p["ctx"], names)}
     return p
 
@@ -387,6 +410,8 @@ def data_from_model(m, names):
         return [data_from_model(x, names) for x in m]
     if isinstance(m, dict):
         return {"ctx": from_model(m["ctx"], names)}
+    if isinstance(m, int) and m in _DATA_OPAQUE_REV:
+        return {"o": _DATA_OPAQUE_REV[m]}
     return m
 
 
@@ -445,6 +470,10 @@ def _expr_strings(e, acc):
     if e["k"] == "var":
         _strings(e["name"], acc)
         _strings(e["type"], acc)
+        g = e["getter"]
+        if isinstance(g, dict):
+            for lit in ([g["const"]] if "const" in g else []) + [x for pr in g.get("sw", []) for x in pr]:
+                _data_strings(lit, acc)
     else:
         for a in e["args"]:
             _expr_strings(a, acc)
@@ -542,6 +571,10 @@ def expr_to_model(e, names):
         g = e["getter"]
         if isinstance(g, dict) and "pairw" in g:
             g = {"pairw": g["pairw"], "k": names.index("w"), "n": len(names)}
+        elif isinstance(g, dict) and "const" in g:
+            g = {"const": data_to_model(g["const"], names)}
+        elif isinstance(g, dict) and "sw" in g:
+            g = dict(g, sw=[[data_to_model(a, names), data_to_model(b, names)] for a, b in g["sw"]])
         return {"k": "var", "name": to_model(e["name"], names), "getter": g, "type": to_model(e["type"], names),
                 "kw": kw}
     return {"k": e["k"], "args": [expr_to_model(a, names) for a in e["args"]], "kw": kw}
@@ -604,13 +637,40 @@ def _nodes_changed(nodes, top=()):
     return None
 
 
+def _same(x, a):
+    """is the datum `x` the scalar literal `a` (as a getter would test it: `x is None`, `x is False`, `x == 0` for an int,
+    `x == ()` ...; an int is not a bool is not a float; nan is nan)"""
+    if a is _EXC:
+        return type(x) is ValueError and x.args == a.args
+    if a is None or isinstance(a, bool):
+        return x is a
+    if isinstance(a, float):
+        return type(x) is float and (x == a or (x != x and a != a))
+    return type(x) is type(a) and x == a
+
+
 def _getter(g):
     """the getter fixtures: {"tag":i}: x -> (i, x); {"pairw":i}: x -> (x, {"w": i}) (data that looks like a
-    (data, context) pair); "first": x -> x[0] for a non-empty tuple, else x"""
+    (data, context) pair); "first": x -> x[0] for a non-empty tuple, else x; {"const":d}: x -> d (whatever it is given:
+    None, a falsy value, an empty tuple, nan, an exception object ...); {"sw":[[a,b]..]} / {"sw":[[a,b]..],"tag":i}:
+    x -> b for the first pair whose scalar `a` x is, otherwise x -- the very object it was given -- resp. (i, x)
+    (a getter that treats None, falsy values, () specially: `0. if part is None else ...`)"""
     if g == "first":
         return lambda x: x[0] if isinstance(x, tuple) and x else x
     if "pairw" in g:
         return lambda x, i=g["pairw"]: (x, {"w": i})
+    if "const" in g:
+        return lambda x, v=dec_data(g["const"]): v
+    if "sw" in g:
+        table = [(dec_data(a), dec_data(b)) for a, b in g["sw"]]
+        tag = g.get("tag")
+
+        def sw(x):
+            for a, b in table:
+                if _same(x, a):
+                    return b
+            return x if tag is None else (tag, x)
+        return sw
     return (lambda x, i=g["tag"]: (i, x))
 
 
@@ -1043,72 +1103,81 @@ def _hist_of(c):
 
 
 def _spec(case):
-    """(in_scope, clash): `in_scope` = the case is inside the property's quantifier, decided on the specification alone:
-    well-formed constructor calls; types are non-empty strings that are not reserved words; no attribute named like a
-    reserved word (except name/type keywords of Compose/Combine); a pre-existing context.variable is absent or a
+    """(in_scope, clash, structural): `in_scope` = the case is inside the property's quantifier, decided on the
+    specification alone: well-formed constructor calls; types are non-empty strings that are not reserved words; no
+    attribute named name/type/getter/compose (except name/type keywords of Compose/Combine) and no `dim`/`combine`
+    keyword of a Combine; `structural` = some attribute of a plain variable or a Compose is named `dim`, `combine` or
+    `variable` (legitimate attribute names -- "arbitrary extra attributes" -- but outside the Boolean hypotheses of the
+    Lean theorems about expressions, `kwOKb`); a pre-existing context.variable is absent or a
     dictionary whose `compose` (if any) is a non-empty list of such type strings and whose `type` (if any) is one.
     `clash` = some attribute (of a variable of the chain, or of the pre-existing context.variable) is named like a type
     of the case: outside the hypotheses of the Lean theorems (`NoClash`), but inside the property ("arbitrary extra
     attributes")."""
     if case.get("wild") or _kind(case) != "chain":
-        return False, False
-    attrs, types = set(), set()
+        return False, False, False
+    attrs, types, structural = set(), set(), False
     for e0 in case["chain"]:
         for e in _all_exprs(e0):
             if e["k"] == "other":
-                return False, False
+                return False, False, False
             kw = dict(e["kw"])
             if e["k"] == "var":
                 if e["getter"] in ("variable", "notcallable") or not isinstance(e["name"], str):
-                    return False, False
+                    return False, False, False
                 if e["type"] != "":
                     if not _is_type(e["type"]):
-                        return False, False
+                        return False, False, False
                     types.add(e["type"])
             else:
                 if not e["args"]:
-                    return False, False
+                    return False, False, False
                 if "name" in kw and not isinstance(kw.pop("name"), str):
-                    return False, False
+                    return False, False, False
                 if e["k"] == "combine":
                     if "type" in kw:
                         t = kw.pop("type")
                         if not _is_type(t):
-                            return False, False
+                            return False, False, False
                         types.add(t)
+            # lena's own keys as names of a user's attributes: `dim` and `combine` are set by Combine only (there they
+            # are not the user's: `dim` is refused, `combine` overwritten), `variable` by nobody; `name`, `type`, `getter`
+            # are parameters of the constructors, `compose` is the key the statement itself speaks about
+            free = ("variable",) if e["k"] == "combine" else STRUCTURE_ATTRS
+            if set(kw) & (set(RESERVED) - set(free)):
+                return False, False, False
             if set(kw) & set(RESERVED):
-                return False, False
+                structural = True
             attrs |= set(kw)
     for v in case["vals"]:
         c = norm(v)["c"]
         if c is None:
             continue
         if "d" not in c:
-            return False, False
+            return False, False, False
         var = c["d"].get("variable")
         if var is None:
             continue
         if not (isinstance(var, dict) and "d" in var):
-            return False, False
+            return False, False, False
         d = var["d"]
         if "compose" in d:
             cl = d["compose"]
             if not (isinstance(cl, dict) and "l" in cl and cl["l"] and all(_is_type(t) for t in cl["l"])):
-                return False, False
+                return False, False, False
         if "type" in d and not _is_type(d["type"]):
-            return False, False
+            return False, False, False
         hist = set(_hist_of(c))
         types |= hist
         attrs |= set(k for k in d if k not in hist and k not in ("name", "type", "compose"))
     if types & set(RESERVED):
-        return False, False
-    return True, bool(types & attrs)
+        return False, False, False
+    return True, bool(types & attrs), structural
 
 
 def spec_wf(case):
     """inside the property's quantifier AND inside the hypotheses of the Lean theorems (no attribute named like a type)"""
-    ok, clash = _spec(case)
-    return ok and not clash
+    ok, clash, structural = _spec(case)
+    return ok and not clash and not structural
 
 
 def spec_scope(case):
@@ -1186,8 +1255,8 @@ def _flow_check(which, r, vals):
 
 
 def _chain_oracle(case, res):
-    wf = spec_wf(case)            # inside the hypotheses of the theorems
-    scope = spec_scope(case)      # inside the property's quantifier (attributes may be named like types)
+    scope, clash, _ = _spec(case)    # scope: inside the property's quantifier (attributes may be named like types)
+    wf = scope and not clash         # ... and no attribute named like a type (attributes named dim/combine/variable are fine)
     S, C = res["S"], res["C"]
     chain, vals = case["chain"], [_canon_val(norm(v)) for v in case["vals"]]     # data / context by the Python reference of _has_context
     if scope:
@@ -1318,6 +1387,25 @@ def _chain_oracle(case, res):
                             return f"{which} on {v}: compose is {var.get('compose')}, types in application order are {allt}"
                     if var.get("type") != types[-1]:
                         return f"{which} on {v}: type is {var.get('type')}, the last variable has type {types[-1]!r}"
+    # ---- ... for EVERY typed element of the chain (a plain variable or a Combine with a type, between whatever other
+    # variables): all the attributes the variable has (its public var_context: name, keywords, and for a Combine `dim`
+    # and `combine`) are available under its type, whatever their names
+    if wf:
+        types = ref_types({"k": "compose", "args": chain, "kw": {}})
+        for v, rs, rc in zip(vals, S["outs"], C["outs"]):
+            allt = _hist_of(v.get("c")) + types
+            if len(set(allt)) != len(allt):
+                continue
+            for e, vc in zip(chain, S["vcs"]):
+                ty = e["type"] if e["k"] == "var" else e["kw"].get("type", "") if e["k"] == "combine" else ""
+                if not _is_type(ty):
+                    continue
+                want = {"d": {k: w for k, w in vc["d"].items() if k not in ("type", ty)}}
+                for which, o in (("Sequence", rs[0]), ("Compose", rc[0])):
+                    var = _var_of(o)
+                    if var is None or var.get(ty) != want:
+                        return (f"{which} on {v}: attributes of the variable of type {ty!r} are "
+                                f"{None if var is None else var.get(ty)}, the variable has {want}")
     return None
 
 
@@ -1393,20 +1481,41 @@ def _rand_value(rng, depth=0, keys=ATTR):
     return 1
 
 
+# data scalars a getter may return / be given: None (a missing value), falsy values of every type, the empty tuple, nan,
+# an exception object, and a few truthy ones
+DATA_SCALARS = [{"o": "None"}, {"o": "False"}, 0, {"o": "0.0"}, {"o": "''"}, [], {"o": "nan"}, {"o": "exc"},
+                {"o": "True"}, 1, {"o": "1.5"}]
+
+
+def _rand_scalar(rng):
+    return {"o": "None"} if rng.random() < 0.3 else rng.choice(DATA_SCALARS)
+
+
 def _rand_getter(rng, i):
     r = rng.random()
-    if r < 0.78:
+    if r < 0.56:
         return {"tag": i}
-    if r < 0.92:
+    if r < 0.66:
         return {"pairw": i}        # returns data that looks like a (data, context) pair
-    return "first"
+    if r < 0.72:
+        return "first"
+    if r < 0.84:
+        return {"const": _rand_scalar(rng)}      # None / a falsy value / () / nan ... whatever it is given
+    # treats some scalars specially (`0. if part is None else ...`), otherwise returns what it was given or (i, x)
+    g = {"sw": [[_rand_scalar(rng), rng.choice(DATA_SCALARS + [[7, 8]])] for _ in range(rng.randint(0, 2))]}
+    if rng.random() < 0.5:
+        g["tag"] = i
+    return g
 
 
 def _rand_data(rng):
-    """input data: mostly an int; sometimes a tuple, sometimes a tuple that looks like a (data, context) pair"""
+    """input data: mostly an int; sometimes a tuple, sometimes a tuple that looks like a (data, context) pair, sometimes
+    None / a falsy value / () / nan"""
     r = rng.random()
-    if r < 0.7:
+    if r < 0.6:
         return rng.randint(0, 9)
+    if r < 0.72:
+        return _rand_scalar(rng)
     if r < 0.8:
         return [rng.randint(0, 9), rng.randint(0, 9)]
     if r < 0.9:
@@ -1431,6 +1540,9 @@ class _Gen:
         if rng.random() < 0.05:
             # "arbitrary extra attributes": one that happens to be called like a type (notes/C14_defect_3.md)
             kw[rng.choice(TYPES[:3] + PRETYPES)] = _rand_value(rng)
+        if rng.random() < 0.06:
+            # ... or like one of lena's own keys (`dim`, `combine` are set by Combine only, `variable` by nobody)
+            kw[rng.choice(STRUCTURE_ATTRS)] = _rand_value(rng)
         l = dict(_leaf(self.n, ty, kw), getter=_rand_getter(rng, self.n))
         if rng.random() < 0.06:
             # names are arbitrary strings: empty, not an identifier, equal to another variable's
@@ -1444,7 +1556,10 @@ class _Gen:
             return self.leaf(types)
         args = [self.expr(types, depth + 1) for _ in range(rng.randint(1, 3 if depth else 4))]
         if r < 0.8:
-            return {"k": "compose", "args": args, "kw": _rand_kw(rng, pmax=1) if rng.random() < 0.3 else {}}
+            kw = _rand_kw(rng, pmax=1) if rng.random() < 0.3 else {}
+            if rng.random() < 0.05:
+                kw[rng.choice(STRUCTURE_ATTRS)] = _rand_value(rng)
+            return {"k": "compose", "args": args, "kw": kw}
         kw = _rand_kw(rng, pmax=1) if rng.random() < 0.3 else {}
         if rng.random() < 0.35:
             kw["name"] = rng.choice(["xy", "c"] + NAMES)
@@ -1610,6 +1725,33 @@ def _exhaustive_cases(maxlen):
     clash_val = {"d": 1, "c": {"d": {"variable": {"d": {"name": "z", "type": "p0", "p0": _sub("z")}}}}}
     cases.append({"chain": [_leaf(1, "ta", {"p0": 3}), _leaf(2, "tb")], "vals": [clash_val]})
     cases.append({"chain": [_leaf(1, "ta"), _leaf(2, "tb", {"ta": {"l": [1]}}), _leaf(3, "tc")], "vals": [vals[0], clash_val]})
+    # getters are arbitrary functions: results that are None (a missing value), falsy, (), nan, an exception object, and
+    # later getters that map exactly those to something else / return the object they were given / wrap it
+    def gl(i, g, ty=""):
+        return dict(_leaf(i, ty), getter=g)
+    ident = {"sw": []}
+    for k, sc in enumerate(DATA_SCALARS):
+        to = DATA_SCALARS[(k + 3) % len(DATA_SCALARS)]
+        svals = [{"d": 5, "c": None}, {"d": sc, "c": None}, {"d": sc, "c": vals[3]["c"]}]
+        const, back = {"const": sc}, {"sw": [[sc, to]], "tag": 2}
+        for chain in ([gl(1, const, "ta"), gl(2, back, "tb")],
+                      [gl(1, const), gl(2, {"tag": 2}, "ta"), gl(3, "first")],
+                      [gl(1, {"sw": [[5, sc]]}, "ta"), gl(2, ident), gl(3, {"sw": [[sc, to]]}, "tb")],
+                      [gl(1, {"sw": [[sc, to]], "tag": 1})],
+                      [{"k": "combine", "args": [gl(1, const, "ta"), gl(2, back), gl(3, ident)], "kw": {}}, gl(4, "first", "tb")],
+                      [{"k": "compose", "args": [gl(1, const, "ta"), gl(2, back, "tb")], "kw": {}}, gl(3, {"sw": [[to, 9]]}, "tc")],
+                      [{"k": "combine", "args": [{"k": "compose", "args": [gl(1, const), gl(2, back)], "kw": {}}, gl(3, const)],
+                        "kw": {}}]):
+            cases.append({"chain": chain, "vals": svals})
+    # attributes named like lena's own keys (`dim`, `combine` are set by Combine only; `variable` by nobody), on plain
+    # variables and Compose, typed and untyped; a Combine with a type between typed variables
+    st = [{"dim": 3, "unit": "cm"}, {"combine": {"t": [{"d": {"name": "x"}}]}, "dim": {"o": "None"}}, {"variable": {"d": {"name": "q"}}, "combine": 0}]
+    for tys in (("ta",), ("",), ("ta", "tb"), ("ta", "", "tc"), ("ta", "tb", "tc")):
+        chain = [_leaf(i + 1, ty, st[i % 3]) for i, ty in enumerate(tys)]
+        cases.append({"chain": chain, "vals": vals2})
+        cases.append({"chain": [{"k": "compose", "args": chain, "kw": {"dim": 2}}, _leaf(9, "tg", st[1])], "vals": vals2})
+        cases.append({"chain": [{"k": "combine", "args": chain, "kw": {"type": "tf", "variable": 1}}, _leaf(9, "tg", st[0])], "vals": vals2})
+        cases.append({"chain": [_leaf(8, "te", st[2]), {"k": "combine", "args": chain, "kw": {"type": "tf"}}, _leaf(9, "")], "vals": vals2})
     # keyword arguments of Compose (the `name` keyword has no effect: Lean `compose_name_keyword_ignored`)
     for kw in ({"name": "foo"}, {"name": "foo", "a": 1}, {"a": {"l": [1]}, "u": "mm"}, {"type": "tg"}):
         for args in ([_leaf(1, "ta")], [_leaf(1, "ta", {"a": 2}), _leaf(2, "tb")], [_leaf(1, ""), _leaf(2, "tb"), _leaf(3, "")]):
@@ -1710,6 +1852,14 @@ def _chain_classify(case, res):
     labels += ["has:" + k for k in sorted(kinds)]
     if any(l["type"] == "" for e in case["chain"] for l in _leaves(e)):
         labels.append("untyped-leaf")
+    for l in (l for e in case["chain"] for l in _leaves(e)):
+        if isinstance(l["getter"], dict) and ("const" in l["getter"] or "sw" in l["getter"]):
+            labels.append("getter:" + ("const" if "const" in l["getter"] else "sw"))
+    if any(set(e.get("kw", {})) & set(STRUCTURE_ATTRS) for e0 in case["chain"] for e in _all_exprs(e0)):
+        labels.append("attr:dim/combine/variable")
+    for reps in res["S"].get("outs", []) if "e" not in res["S"] else []:
+        if reps and isinstance(reps[0].get("d"), dict) and "o" in reps[0]["d"]:
+            labels.append("data:" + reps[0]["d"]["o"])
     for which in ("S", "C"):
         r = res[which]
         if "e" in r:
@@ -1762,6 +1912,10 @@ def signature(case, failure):
         return "ctor|" + (failure or "")[:40]
     if (failure or "").startswith("Combine(..., name="):
         return "Combine(..., name=) has another name"      # one report, whatever the names of the case
+    for w, sig in (("but the getters applied in order give", "data differs from the getters applied in order"),
+                   ("attributes of the variable of type", "attributes of a variable not available under its type")):
+        if w in (failure or ""):
+            return sig
     head = (failure or "").split(":")[0]
     for w in ("Sequence ", "Compose "):
         if head.startswith(w):
